@@ -587,7 +587,7 @@ fn main() {
     check_unique_durations(run.pick(4, 5), &mut ctx);
     check_large(!run.quick(), &mut ctx);
     let meta = Meta {
-        rule: "cut: the whole value alphabet {null, MIN, -3, -1, 0, 1, 2, 5, 7, MAX} (f64 and Option<i32>) x every ascending subset of the edge pool {-1,0,2,5,7} x label counts 0..=6 x right x add_bounds; oracle = the unique interval containing the value (outer edges at -inf/+inf with open bounds), Err for no interval, call-level Err for a label-count mismatch, never a panic. unique: every non-decreasing and non-increasing word over {0,1,2,3} (all run-length compositions) with null blocks of 0..2 at head and tail, Keep::First / Keep::Last / vsorted_unique; oracle = first / last index of each maximal run. Beyond the small scope: 17..257 consecutive edges with values on and between every edge; 1..3 runs with lengths from {1,2,255,256,257}; the translation relation for i64 values and edges around +-2^60. Non-trivial = distinct parameter points / words. Also labels that are nulls themselves at every position (cut-null-labels: f64, Option<i32>, String labels; DESIGN 5.15). Round 9 (DESIGN 5.18): unique-durations - sorted TimeDelta words, including durations beyond the i64 nanosecond range, through vsorted_unique / vsorted_unique_idx against the run model.".into(),
+        rule: "cut: the whole value alphabet {null, MIN, -3, -1, 0, 1, 2, 5, 7, MAX} (f64 and Option<i32>) x every ascending subset of the edge pool {-1,0,2,5,7} x label counts 0..=6 x right x add_bounds; oracle = the unique interval containing the value (outer edges at -inf/+inf with open bounds), Err for no interval, call-level Err for a label-count mismatch, never a panic. unique: every non-decreasing and non-increasing word over {0,1,2,3} (all run-length compositions) with null blocks of 0..2 at head and tail, Keep::First / Keep::Last / vsorted_unique; oracle = first / last index of each maximal run. Beyond the small scope: 17..257 consecutive edges with values on and between every edge; 1..3 runs with lengths from {1,2,255,256,257}; the translation relation for i64 values and edges around +-2^60. Non-trivial = distinct parameter points / words. Also labels that are nulls themselves at every position (cut-null-labels: f64, Option<i32>, String labels; DESIGN 5.15). Round 9 (DESIGN 5.18): unique-durations - sorted TimeDelta words, including durations beyond the i64 nanosecond range, through vsorted_unique / vsorted_unique_idx against the run model. Round 10 (DESIGN 5.19): cut-sequences - every value word of length <= L over {null, below, on an edge, inside, above}: an item's label depends on that item alone, and every item after an Err item is still delivered.".into(),
         bounds: json!({"cut": {"edge_pool": [-1, 0, 2, 5, 7], "labels": "0..=6"}, "unique": {"alphabet": [0, 1, 2, 3], "L": max_len, "null_block": "0..=2 head x 0..=2 tail"}}),
         assumptions: vec!["finite values (the type's MIN and MAX included)".into()],
         exhaustive: true,
